@@ -9,6 +9,7 @@ import (
 
 	"github.com/ohler55/ojg"
 	"github.com/ohler55/ojg/alt"
+	"github.com/ohler55/ojg/gen"
 	"github.com/ohler55/ojg/jp"
 	"pgregory.net/rapid"
 
@@ -29,6 +30,7 @@ type Case struct {
 func TestMain(m *testing.M) {
 	vrt.InitRapid()
 	vrt.RegisterReplay(suite, "get", Run)
+	vrt.RegisterReplay(suite, "in", RunIn)
 	suite.Register(classifiers...)
 	vrt.Main(m, suite)
 }
@@ -395,6 +397,127 @@ func TestEnumSlices(t *testing.T) {
 	}
 	suite.AddExtra("slice_matrix_cases", int64(n))
 	suite.Extra("slice_matrix_exhaustive_over", fmt.Sprintf("arrays of 0..%d elements x slices with bounds %d..%d or left out and steps -3..3 or left out x {last, followed by child / index / negative index / wildcard / slice} x {at the root, one level down} x {simple, gen}", maxLen, lo, hi))
+}
+
+// InCase: the in operator with its list taken from the element, from the root and from a constant,
+// on data whose numbers are held in other Go kinds (int, int32, uint8, float32) or as gen scalars
+// inside simple containers. No document states what in means beyond membership, so the oracle is
+// differential: the same path on the plain form of the data (int64 / float64) selects the elements
+// at the same positions.
+type InCase struct {
+	Path string `json:"path"`
+	Form string `json:"form"` // goints | genleaves
+}
+
+func inData() any {
+	m := func(kv ...any) map[string]any {
+		out := map[string]any{}
+		for i := 0; i+1 < len(kv); i += 2 {
+			out[kv[i].(string)] = kv[i+1]
+		}
+		return out
+	}
+	elems := []any{
+		m("id", int64(0), "x", int64(3), "l", []any{int64(1), int64(2), int64(3)}),
+		m("id", int64(1), "x", int64(4), "l", []any{int64(1), int64(2)}),
+		m("id", int64(2), "x", 2.0, "l", []any{int64(1), int64(2), "b"}),
+		m("id", int64(3), "x", "b", "l", []any{}),
+		m("id", int64(4), "x", 1.5, "l", []any{1.5, true}),
+		m("id", int64(5), "x", int64(200), "l", []any{int64(200), 2.5}),
+	}
+	return m("items", elems, "pool", []any{int64(4), "b", 2.0, 1.5})
+}
+
+func RunIn(cs InCase, c *vrt.Ctx) {
+	x, err := jp.ParseString(cs.Path)
+	if err != nil {
+		c.DontCare("path does not parse")
+		return
+	}
+	data := inData()
+	var form any = goInts(data, new(int))
+	if cs.Form == "genleaves" {
+		form = genLeaves(data)
+	}
+	var want, got []any
+	if pv, stack := vrt.Catch(func() { want, got = x.Get(data), x.Get(form) }); pv != nil {
+		c.Fail("panic", "jp.Expr.Get", fmt.Sprintf("%v at %s; path %s", pv, stack, cs.Path))
+		return
+	}
+	c.NonTrivial()
+	w, g := canonList(want), canonList(got)
+	if strings.Join(w, ",") != strings.Join(g, ",") {
+		c.Fail("wrong-selection", "jp.Expr.Get", fmt.Sprintf("path %s on the %s form of %s selects ids %v, on the plain form %v", cs.Path, cs.Form, canon.String(data, canon.Value), g, w))
+	}
+}
+
+func TestEnumInOperator(t *testing.T) {
+	paths := []string{"$.items[?(@.x in @.l)].id", "$.items[?(@.x in $.pool)].id", "$.items[?(@.x in [1, 2, 3, 'b', 1.5])].id", "$.items[?(!(@.x in @.l))].id", "$.items[?(@.x in @.l || @.x in $.pool)].id"}
+	n := 0
+	for _, pt := range paths {
+		for _, form := range []string{"goints", "genleaves"} {
+			vrt.Eval(suite, "in", InCase{Path: pt, Form: form}, RunIn)
+			n++
+		}
+	}
+	suite.AddExtra("in_operator_cases", int64(n))
+}
+
+func goInts(v any, n *int) any {
+	switch tv := v.(type) {
+	case map[string]any:
+		out := map[string]any{}
+		for k, e := range tv {
+			out[k] = goInts(e, n)
+		}
+		return out
+	case []any:
+		out := make([]any, len(tv))
+		for i, e := range tv {
+			out[i] = goInts(e, n)
+		}
+		return out
+	case int64:
+		*n++
+		switch {
+		case *n%3 == 0 && 0 <= tv && tv <= 255:
+			return uint8(tv)
+		case *n%3 == 1:
+			return int32(tv)
+		}
+		return int(tv)
+	case float64:
+		if float64(float32(tv)) == tv {
+			return float32(tv)
+		}
+	}
+	return v
+}
+
+func genLeaves(v any) any {
+	switch tv := v.(type) {
+	case map[string]any:
+		out := map[string]any{}
+		for k, e := range tv {
+			out[k] = genLeaves(e)
+		}
+		return out
+	case []any:
+		out := make([]any, len(tv))
+		for i, e := range tv {
+			out[i] = genLeaves(e)
+		}
+		return out
+	case int64:
+		return gen.Int(tv)
+	case float64:
+		return gen.Float(tv)
+	case string:
+		return gen.String(tv)
+	case bool:
+		return gen.Bool(tv)
+	}
+	return v
 }
 
 func TestPropRandom(t *testing.T) {
